@@ -191,6 +191,11 @@ func (e *FnEnc) addModRef(env *Env, c Clause, into map[string][]modT) {
 		t := modT{ref: v.Loc.Ref}
 		if v.Loc.Elem {
 			t.idx = v.Loc.Idx
+		} else if len(v.Loc.Path) >= 1 && v.Loc.Path[0].Field >= 0 {
+			if _, ok := v.Loc.RootTy.Underlying().(*types.Struct); ok {
+				t.field = v.Loc.Path[0].Field
+				t.fieldTy = v.Loc.RootTy
+			}
 		}
 		into[v.Loc.Heap.Name] = append(into[v.Loc.Heap.Name], t)
 		return
@@ -543,6 +548,26 @@ func (e *FnEnc) loopHeader(b *ssa.BasicBlock, li *loopInfo, fwd []*ssa.BasicBloc
 			continue
 		}
 		for _, in := range lb.Instrs {
+			if ci, ok := in.(ssa.CallInstruction); ok {
+				// a local allocation whose address is handed to a call inside the loop may be modified by it
+				for _, a := range ci.Common().Args {
+					root := a
+					for {
+						if fa, ok := root.(*ssa.FieldAddr); ok {
+							root = fa.X
+							continue
+						}
+						break
+					}
+					if al, ok := root.(*ssa.Alloc); ok && !li.blocks[al.Block()] {
+						if av, ok := e.vals[al]; ok {
+							hn := e.sorts().CellHeap(al.Type().Underlying().(*types.Pointer).Elem()).Name
+							li.modRefs[hn] = append(li.modRefs[hn], modT{ref: av.T})
+						}
+					}
+				}
+				continue
+			}
 			if mu, ok := in.(*ssa.MapUpdate); ok {
 				if mk, ok := mu.Map.(*ssa.MakeMap); ok && !li.blocks[mk.Block()] {
 					if mv, ok := e.vals[mk]; ok {
@@ -581,6 +606,16 @@ func (e *FnEnc) loopHeader(b *ssa.BasicBlock, li *loopInfo, fwd []*ssa.BasicBloc
 			}
 		}
 	}
+	// the map-clearing idiom `for k := range m { delete(m, k) }`: the map is a modification target and every visited
+	// key has been deleted (an invariant supplied by the generator, proved at the back edge like any other)
+	clearMap, clearVis, clearKT := e.clearIdiom(li)
+	if clearMap != nil {
+		mv := e.val(clearMap)
+		mt := clearMap.Type().Underlying().(*types.Map)
+		for _, hn := range []string{e.sorts().MapDom(mt.Key()).Name, MapLen.Name} {
+			li.modRefs[hn] = append(li.modRefs[hn], modT{ref: mv.T})
+		}
+	}
 	// 2. havoc
 	mod := e.loopModSet(li)
 	for _, p := range phis {
@@ -614,6 +649,9 @@ func (e *FnEnc) loopHeader(b *ssa.BasicBlock, li *loopInfo, fwd []*ssa.BasicBloc
 		}
 	}
 	li.hdrState = copyState(e.cur)
+	if clearMap != nil {
+		e.assume(e.clearInv(e.cur, clearMap, clearVis, clearKT))
+	}
 	// 3. assume invariants
 	if lc != nil {
 		envH := e.specEnv(e.cur, e.initState, nil)
@@ -630,7 +668,11 @@ func (e *FnEnc) loopHeader(b *ssa.BasicBlock, li *loopInfo, fwd []*ssa.BasicBloc
 	}
 }
 
-type modT struct{ ref, idx string }
+type modT struct {
+	ref, idx string
+	field    int        // >= 0 with fieldTy != nil: only this field of the struct object is a target
+	fieldTy  types.Type // the struct type
+}
 
 // frameFact: every object with reference <= allocBound (or every object, if allocBound is empty) that is not a
 // declared modification target has the same value in nw as in old; for targets that name one slice element,
@@ -662,6 +704,34 @@ func (e *FnEnc) frameFactP(nw, old, allocBound string, except []modT, pat bool) 
 	facts := []string{fmt.Sprintf("(forall ((%s Int)) (! (=> %s (= (select %s %s) (select %s %s))) :pattern ((select %s %s))))", q, and(conds...), nw, q, old, q, nw, q)}
 	if !pat {
 		facts = []string{fmt.Sprintf("(forall ((%s Int)) (=> %s (= (select %s %s) (select %s %s))))", q, and(conds...), nw, q, old, q)}
+	}
+	// targets that name single fields of a struct object: the other fields keep their values
+	fieldsOf := map[string][]modT{}
+	for _, t := range except {
+		if t.fieldTy != nil {
+			fieldsOf[t.ref] = append(fieldsOf[t.ref], t)
+		}
+	}
+	for _, r := range order {
+		fs := fieldsOf[r]
+		if len(fs) == 0 {
+			continue
+		}
+		onlyFields := true
+		for _, t := range except {
+			if t.ref == r && t.fieldTy == nil {
+				onlyFields = false
+			}
+		}
+		if !onlyFields {
+			continue
+		}
+		ty := fs[0].fieldTy
+		upd := sx("select", old, r)
+		for _, t := range fs {
+			upd = e.sorts().UpdateField(ty, upd, t.field, e.sorts().GetField(ty, sx("select", nw, r), t.field))
+		}
+		facts = append(facts, sx("=", sx("select", nw, r), upd))
 	}
 	for _, r := range order {
 		whole := false
@@ -764,6 +834,10 @@ func (e *FnEnc) backEdge(from *ssa.BasicBlock, li *loopInfo) {
 					Guard: g, Goal: and(sx("<", d1.T, d0.T), sx(">=", d0.T, "0"))})
 			}
 		}
+	}
+	if cm, cv, ck := e.clearIdiom(li); cm != nil {
+		e.oblige(&Obligation{Name: fmt.Sprintf("loop%d.clear-idiom@b%d", li.ordinal, from.Index), Kind: "inv-preserved", Clause: "every key visited by the clearing loop has been deleted",
+			Guard: g, Goal: e.clearInv(st, cm, cv, ck)})
 	}
 	// frame preserved: pre-existing, undeclared objects unchanged at the back edge
 	mod := e.loopModSet(li)
@@ -1253,4 +1327,68 @@ func (e *FnEnc) writtenInLoop(li *loopInfo, ref string) bool {
 		}
 	}
 	return false
+}
+
+// clearIdiom recognises `for k := range m { delete(m, k) }`: a map-range loop whose body deletes the current key from
+// the ranged map.  It returns the map value, the visited-set ghost and the key type.
+func (e *FnEnc) clearIdiom(li *loopInfo) (ssa.Value, HeapVar, types.Type) {
+	var nx *ssa.Next
+	for _, in := range li.header.Instrs {
+		if n, ok := in.(*ssa.Next); ok && !n.IsString {
+			nx = n
+		}
+	}
+	if nx == nil {
+		return nil, HeapVar{}, nil
+	}
+	rng, ok := nx.Iter.(*ssa.Range)
+	if !ok {
+		return nil, HeapVar{}, nil
+	}
+	mt, ok := rng.X.Type().Underlying().(*types.Map)
+	if !ok {
+		return nil, HeapVar{}, nil
+	}
+	for b := range li.blocks {
+		for _, in := range b.Instrs {
+			c, ok := in.(*ssa.Call)
+			if !ok {
+				continue
+			}
+			bi, ok := c.Call.Value.(*ssa.Builtin)
+			if !ok || bi.Name() != "delete" || !sameMapExpr(c.Call.Args[0], rng.X) {
+				continue
+			}
+			if ex, ok := c.Call.Args[1].(*ssa.Extract); ok && ex.Tuple == nx && ex.Index == 1 {
+				hv, ok := e.rangeVis[rng]
+				if !ok {
+					hv = HeapVar{"VIS." + mangle(rng.Name()), "(Array " + e.sorts().SortOf(mt.Key()) + " Bool)"}
+				}
+				return rng.X, hv, mt.Key()
+			}
+		}
+	}
+	return nil, HeapVar{}, nil
+}
+
+func (e *FnEnc) clearInv(st State, m ssa.Value, vis HeapVar, kt types.Type) string {
+	mv := e.val(m)
+	q := fmt.Sprintf("k!q%d", e.nextQ())
+	dom := sx("select", e.heapIn(st, e.sorts().MapDom(kt)), mv.T)
+	return fmt.Sprintf("(forall ((%s %s)) (=> (select %s %s) (not (select %s %s))))", q, e.sorts().SortOf(kt), e.heapIn(st, vis), q, dom, q)
+}
+
+// sameMapExpr: two SSA values that denote the same map: the same value, or two loads of the same field of the same object.
+func sameMapExpr(a, b ssa.Value) bool {
+	if a == b {
+		return true
+	}
+	ua, ok1 := a.(*ssa.UnOp)
+	ub, ok2 := b.(*ssa.UnOp)
+	if !ok1 || !ok2 {
+		return false
+	}
+	fa, ok1 := ua.X.(*ssa.FieldAddr)
+	fb, ok2 := ub.X.(*ssa.FieldAddr)
+	return ok1 && ok2 && fa.X == fb.X && fa.Field == fb.Field
 }
